@@ -124,6 +124,14 @@ impl<K: VKey, V> BTreeMap<K, V> {
             None => !self@.contains_key(k.kview()),
         }
     { unimplemented!() }
+    // std `BTreeMap::first_key_value` (only used by a seeded mutant)
+    #[verifier::external_body]
+    pub fn first_key_value(&self) -> (r: Option<(&K, &V)>)
+        ensures match r {
+            Some(kv) => self@.contains_key(kv.0.kview()) && *kv.1 == self@[kv.0.kview()],
+            None => self@ =~= Map::<K::KV, V>::empty(),
+        }
+    { unimplemented!() }
     #[verifier::external_body]
     pub fn insert(&mut self, k: K, v: V) -> (r: Option<V>)
         ensures final(self)@ == old(self)@.insert(k.kview(), v)
@@ -192,6 +200,8 @@ impl BTreeSet<PathBuf> {
     pub fn insert(&mut self, p: PathBuf) -> (r: bool)
         ensures final(self)@ == old(self)@.insert(p@), r == !old(self)@.contains(p@)
     { unimplemented!() }
+    #[verifier::external_body]
+    pub fn clear(&mut self) ensures final(self)@ == Set::<Seq<char>>::empty() { unimplemented!() }
     #[verifier::external_body]
     pub fn remove(&mut self, p: &Path) -> (r: bool)
         ensures final(self)@ == old(self)@.remove(p@), r == old(self)@.contains(p@)
